@@ -21,6 +21,8 @@ import RosuModel.Model.PerfCalcWire
 import RosuModel.Model.OsuSkillWire
 import RosuModel.Model.SliderEventsWire
 import RosuModel.Model.ManiaPatternWire
+import RosuModel.Model.ConvOsuWire
+import RosuModel.Model.ConvCatchWire
 import RosuModel.Model.SkillWire
 
 open Rosu
@@ -92,6 +94,9 @@ def handle (line : String) : String :=
   | ["MPE", total, rng, sample, prev, hold, short] => ManiaPattern.Wire.handleMPE total rng sample prev hold short
   | ["MPT", total, seed, cd, objs] => ManiaPattern.Wire.handleMPT total seed cd objs
   | ["MPN", start, span, dist, bl, sm] => ManiaPattern.Wire.handleMPN start span dist bl sm
+  | ["OCONV", refl, version, take, cs, ar, clock, sl, objs] => ConvOsu.Wire.handleOCONV refl version take cs ar clock sl objs
+  | ["LTT", start, dur, ns] => ConvOsu.Wire.handleLTT start dur ns
+  | ["CCONV", hr, refl, objs] => ConvCatch.Wire.handleCCONV hr refl objs
   | _ => "bad-op"
 
 partial def loop (h : IO.FS.Stream) (out : IO.FS.Stream) : IO Unit := do
